@@ -26,7 +26,12 @@ func DefaultBackoffConfig() BackoffConfig {
 }
 
 func CalculateBackoff(cfg BackoffConfig, attempt int) time.Duration {
-	backoff := float64(cfg.InitialBackoff) * math.Pow(cfg.BackoffMultiplier, float64(attempt))
+	factor := math.Pow(cfg.BackoffMultiplier, float64(attempt))
+	if math.IsInf(factor, 1) {
+		// Avoid 0 * +Inf = NaN (which converts to a negative Duration) when InitialBackoff is 0.
+		factor = math.MaxFloat64
+	}
+	backoff := float64(cfg.InitialBackoff) * factor
 	if backoff > float64(cfg.MaxBackoff) {
 		backoff = float64(cfg.MaxBackoff)
 	}
